@@ -313,10 +313,29 @@ class WorldGen:
             pos = rnd.randint(1, ar - 1)
             regkey = early[:pos] + ["i%d" % b0] + early[pos:]
             qkey = early[:pos] + [late] + early[pos:]
+            if rnd.random() < P.get("scen_multi_sub", 0.4):
+                # the same with a SUBSCRIPTION under the multi-position key, asked through subscriptions() / subscribers()
+                L.append("sub|%d|%s|%d|%d %d" % (r, " ".join(regkey), p, v[0], v[1]))
+                live.append(("sub", r, tuple(regkey), p, "", v))
+                for t in early[:pos]:
+                    L.append(rnd.choice(["subs|%d|%s|%d" % (r, t, p), "lookup|%d|%s|%d|%s" % (r, t, p, nm), "lookupAll|%d|%s|%d" % (r, t, p)]))
+                # ... or the earlier positions became watched through ANOTHER multi-position query that shares them
+                if rnd.random() < 0.5:
+                    other = early[:pos] + [keytok()] + early[pos:]
+                    L.append("subs|%d|%s|%d" % (r, " ".join(other), p))
+                kinds_ = ["subs|%d|%s|%d" % (r, " ".join(qkey), p)]
+                if all(t[0] in "os" for t in qkey):
+                    kinds_.append("subscribers|%d|%s|%d" % (r, " ".join(qkey), p))
+                q = rnd.choice(kinds_)
+                L.extend([q, change, q])
+                return
             L.append("reg|%d|%s|%d|%s|%d %d" % (r, " ".join(regkey), p, nm, v[0], v[1]))
             live.append(("reg", r, tuple(regkey), p, nm, v))
             for t in early[:pos]:
                 L.append(rnd.choice(["lookup1|%d|%s|%d|%s" % (r, t, p, nm), "lookup|%d|%s|%d|%s" % (r, t, p, nm), "lookupAll|%d|%s|%d" % (r, t, p)]))
+            if rnd.random() < 0.4:
+                other = early[:pos] + [keytok()] + early[pos:]
+                L.append("lookup|%d|%s|%d|%s" % (r, " ".join(other), p, nm))
             kinds_ = ["lookup|%d|%s|%d|%s" % (r, " ".join(qkey), p, nm), "lookupAll|%d|%s|%d" % (r, " ".join(qkey), p)]
             if all(t[0] in "os" for t in qkey):
                 kinds_.append("qadapter|%d|%s|%d|%s|m" % (r, " ".join(qkey), p, nm))
